@@ -264,7 +264,9 @@ def _run_sched(case):
             return i
         pk = dict(kind='sched', scene=scene, params=params, labels=labels)
         try:
-            s1, ref, _ = _run_deblend(scene, params, 1, labels=labels)
+            p1 = dict(params, relabel=not params['relabel']) if case.get(
+                'twin') else params
+            s1, ref, _ = _run_deblend(scene, p1, 1, labels=labels)
             s2, out, a2 = _run_deblend(scene, params, 2, chooser,
                                        labels=labels)
             ctx.stats.obligations += 1
@@ -359,6 +361,8 @@ def cases(tier, seed):
                    contrast=[0.001, 1]) if tier == 'thorough' else
               dict(kind='sched', name='subsets-touching', scene='touching',
                    subsets=True))
+    cs.append(dict(kind='sched', name='schedule-twin', scene='gaps',
+                   twin=True))
     cs.append(dict(kind='spawn', name='real-spawn-smoke'))
     return cs
 
